@@ -90,6 +90,10 @@ type faultEvent struct {
 	RData  [][]int   `json:"rdata"`
 	RPost  faultObs  `json:"rpost"`
 	Counts []int     `json:"counts"` // dry run: loads, compares, marshals, unmarshals
+	// after a failed insert / delete: the tree as a MakeRoot of a clone persists it, with the height it records
+	POk     bool   `json:"pok"`
+	PTerm   []term `json:"pterm"`
+	PHeight int    `json:"pheight"`
 }
 
 type faultTree struct {
@@ -449,6 +453,25 @@ func faultsFamily(seed int64, n int, out *json.Encoder, perKind int) {
 					ev.Phase = "grow"
 				}
 				ev.Post = t.observe()
+				ev.PTerm = []term{}
+				if ev.Res == "err" && (c.Op == "ins" || c.Op == "del") {
+					// is the recorded height still the height of the structure? persist a clone and decode it
+					guard(func() error {
+						cl, err := t.m.Clone(ctx)
+						if err != nil {
+							return err
+						}
+						root, err := cl.MakeRoot(ctx)
+						if err != nil {
+							return err
+						}
+						p := &projector{nf: t.cfg.NF, kc: t.kc, vc: t.vc, st: t.st}
+						ev.PTerm = p.kid(linkOf(root))
+						ev.PHeight = int(root.Height)
+						ev.POk = len(p.bad) == 0
+						return nil
+					})
+				}
 				// the same call again, the fault cleared
 				ev.RRes, _, ev.RData = t.run(c)
 				ev.RPost = t.observe()
